@@ -7,6 +7,8 @@ op   = ["a", size, aligned]            allocate(size, align=aligned)
                                        regions (mod #gaps) + delta)
        ["f", k]                        free the k-th live region (mod #live)
        ["g", n]                        grow(n)
+       ["v"]                           the caller takes a numpy view of the whole storage (to_nplike) and keeps it
+                                       alive for the rest of the history (state outside the allocator)
 """
 
 from hypothesis import strategies as st
@@ -58,6 +60,8 @@ def resolve(op, live, capacity, min_size):
         return ("f", op[1] % len(live))
     if op[0] == "g":
         return ("g", op[1])
+    if op[0] == "v":
+        return ("v",)
     raise ValueError(op)
 
 
@@ -94,6 +98,7 @@ def histories(draw, tier, min_size):
         st.tuples(st.just("f"), st.integers(0, 15)),
         st.tuples(st.just("f"), st.integers(0, 15)),
         st.tuples(st.just("g"), st.one_of(st.integers(1, 16), st.integers(1, 300))),
+        st.tuples(st.just("v")),
     ).map(list)
     ops = draw(st.lists(op, min_size=1, max_size=maxlen))
     # a rare class: huge request with a tiny growth step on a non-tiny buffer
@@ -143,3 +148,9 @@ def iter_job_histories(job):
                 "grow_step": gs,
                 "ops": [first] + list(rest),
             }
+
+
+def keep_view(buf, views):
+    """op ["v"]: a numpy view of the whole storage, kept alive by the caller"""
+    if buf.capacity > 0:
+        views.append(buf.to_nplike(0, "uint8", (int(buf.capacity),)))
